@@ -48,7 +48,7 @@ RULE = (
     "from the case; two drawn orders in which co-located clients call params(). Per group one real BulkIndexParamSource is partitioned "
     "for its clients and drained at 100 % under order A, again at 100 % under order B (same multiset of bulks), and with the drawn "
     "ingest percentage under order A (prefix of the documented length); what a client was handed must not change while it holds it; a sample of the "
-    "cases is run end to end through the real AsyncIoAdapter + bulk runner, unthrottled or throttled. "
+    "cases is run end to end through the real AsyncIoAdapter + bulk runner, unthrottled or throttled, in half of these runs next to a second task that refers to the same operation. "
     "arith cases: 1-3 files with up to 10^12 documents, up to 1024 clients, drawn contiguous split, bulk size up to 10^6. "
     "arith-grid (enumerated): all contiguous splits of N <= 9 clients x 0..60 documents x with/without meta-data. "
     "Non-trivial (files) = (>= 2 groups and >= 2 targeted files) or a group starts at or beyond line 50 000 of a file (offset entry used) or "
